@@ -126,12 +126,54 @@ def recipe_extras(ctx, names, per, link=True, reopen=False):
     return out
 
 
+def inode_source_oracle(ctx):
+    """the content source of an edit is read from where the edit said: Inode.new(length, source, manage_fp, offset) followed by
+    InodeOpenData must deliver source[offset:offset+length], for file objects and for files opened by name (add_file), at
+    offset 0 and at the non-zero offsets that further extents of very large files use"""
+    import io
+    import os
+    import tempfile
+    from pycdlib import inode
+    data = bytes((i * 7 + i // 251) % 256 for i in range(200000))
+    fd, path = tempfile.mkstemp(prefix='c01src', dir=(os.makedirs(common.WORK, exist_ok=True) or common.WORK))
+    try:
+        os.write(fd, data)
+        os.close(fd)
+        for manage in (True, False):
+            for off in (0, 1, 2048, 70001):
+                for ln in (0, 5, 2048, 100000):
+                    ino = inode.Inode()
+                    fp = None if manage else open(path, 'rb')
+                    try:
+                        ino.new(ln, path if manage else fp, manage, off)
+                        with inode.InodeOpenData(ino, 2048) as (dfp, dlen):
+                            got = dfp.read(dlen)
+                    finally:
+                        if fp is not None:
+                            fp.close()
+                    ctx.case(('inode-source', manage, off, ln), True)
+                    if got != data[off:off + ln] or dlen != ln:
+                        ctx.violation('c01:content-source:%s:offset' % ('by-name' if manage else 'file-object'),
+                                      'C01: content added from a %s at source offset %d, length %d is read from the wrong place '
+                                      '(first byte %r, expected %r): a further extent of a file larger than 4 GiB added with add_file() '
+                                      'would repeat the beginning of the file' % ('file name' if manage else 'file object', off, ln,
+                                                                                 got[:1], data[off:off + 1]),
+                                      {'manage_fp': manage, 'offset': off, 'length': ln})
+                        return
+    finally:
+        try:
+            os.unlink(path)
+        except OSError:
+            pass
+
+
 BOUNDARY = ['exact_fill', 'exact_fill_root', 'exact_fill_plus', 'ce_gap_plus', 'ce_gap_exact', 'big_records', 'udf_fid_cross', 'fat_dir_churn']
 
 
 def run(ctx):
     common.proof_stage(ctx, MODULE, THEOREMS, extra_targets=['theories/Spec/FsCases.vo'])
     common.setup_impl_path()
+    inode_source_oracle(ctx)
     n = 240 if ctx.tier == 'quick' else 3000
     system_check(ctx, 'C01', n, dict(allow_refusals=False), nops=(5, 30) if ctx.tier == 'quick' else (10, 80),
                  extra=recipe_extras(ctx, BOUNDARY, 3 if ctx.tier == 'quick' else 25))
